@@ -27,6 +27,24 @@ import (
 	"strings"
 )
 
+// headerOf returns a copy of a compound statement without its bodies (only the expressions
+// evaluated by the statement itself remain).
+func headerOf(st ast.Stmt) ast.Node {
+	switch t := st.(type) {
+	case *ast.IfStmt:
+		return &ast.IfStmt{Init: t.Init, Cond: t.Cond, Body: &ast.BlockStmt{}}
+	case *ast.ForStmt:
+		return &ast.ForStmt{Init: t.Init, Cond: t.Cond, Post: t.Post, Body: &ast.BlockStmt{}}
+	case *ast.SwitchStmt:
+		return &ast.SwitchStmt{Init: t.Init, Tag: t.Tag, Body: &ast.BlockStmt{}}
+	case *ast.TypeSwitchStmt:
+		return &ast.TypeSwitchStmt{Init: t.Init, Assign: t.Assign, Body: &ast.BlockStmt{}}
+	case *ast.RangeStmt:
+		return &ast.ExprStmt{X: t.X}
+	}
+	return &ast.EmptyStmt{}
+}
+
 func die(code int, format string, args ...interface{}) {
 	fmt.Fprintf(os.Stderr, "vinstr: "+format+"\n", args...)
 	os.Exit(code)
@@ -74,6 +92,7 @@ func main() {
 	report := map[string]interface{}{}
 	var globals []string
 	points, mapRanges, uncontrolledRanges, goStmts := 0, 0, 0, 0
+	atomicPoints := 0
 	syncFiles := 0
 
 	os.MkdirAll(filepath.Join(*out, "src"), 0755)
@@ -178,6 +197,83 @@ func main() {
 			points++
 			needShim = true
 		}
+		// 4. a scheduling point before every statement that uses sync/atomic (the library uses none
+		// today; a change that introduces a lock-free slot or flag must still be explorable)
+		atomicAlias := ""
+		for _, im := range f.Imports {
+			if im.Path.Value == `"sync/atomic"` {
+				atomicAlias = "atomic"
+				if im.Name != nil {
+					atomicAlias = im.Name.Name
+				}
+			}
+		}
+		usesAtomic := func(n ast.Node) bool {
+			found := false
+			ast.Inspect(n, func(x ast.Node) bool {
+				switch t := x.(type) {
+				case *ast.BlockStmt, *ast.FuncLit:
+					return false // nested bodies are handled on their own
+				case *ast.CallExpr:
+					if se, ok := t.Fun.(*ast.SelectorExpr); ok {
+						if id, ok := se.X.(*ast.Ident); ok && atomicAlias != "" && id.Name == atomicAlias {
+							found = true
+						}
+						if tv, ok := info.Types[se.X]; ok && tv.Type != nil && strings.Contains(tv.Type.String(), "sync/atomic.") {
+							found = true
+						}
+					}
+				}
+				return !found
+			})
+			return found
+		}
+		point := func() ast.Stmt {
+			return &ast.ExprStmt{X: &ast.CallExpr{
+				Fun:  &ast.SelectorExpr{X: ast.NewIdent("verifshim"), Sel: ast.NewIdent("Point")},
+				Args: []ast.Expr{&ast.BasicLit{Kind: token.STRING, Value: `"atomic"`}},
+			}}
+		}
+		var instrList func(list []ast.Stmt) []ast.Stmt
+		instrList = func(list []ast.Stmt) []ast.Stmt {
+			var out []ast.Stmt
+			for _, st := range list {
+				hit := false
+				switch t := st.(type) {
+				case *ast.BlockStmt:
+					t.List = instrList(t.List)
+				case *ast.IfStmt, *ast.ForStmt, *ast.SwitchStmt, *ast.TypeSwitchStmt, *ast.RangeStmt, *ast.SelectStmt, *ast.LabeledStmt:
+					hit = usesAtomic(headerOf(st))
+				default:
+					hit = usesAtomic(st)
+				}
+				if hit {
+					out = append(out, point())
+					atomicPoints++
+					needShim = true
+				}
+				out = append(out, st)
+			}
+			return out
+		}
+		ast.Inspect(f, func(n ast.Node) bool {
+			switch t := n.(type) {
+			case *ast.BlockStmt:
+				t.List = instrList(t.List)
+			case *ast.CaseClause:
+				t.Body = instrList(t.Body)
+			case *ast.CommClause:
+				t.Body = instrList(t.Body)
+			case *ast.ForStmt:
+				// a loop whose header uses an atomic (spin loop): yield inside the body as well
+				if t.Body != nil && usesAtomic(headerOf(t)) {
+					t.Body.List = append([]ast.Stmt{point()}, t.Body.List...)
+					atomicPoints++
+					needShim = true
+				}
+			}
+			return true
+		})
 		if needShim {
 			spec := &ast.ImportSpec{Name: ast.NewIdent("verifshim"), Path: &ast.BasicLit{Kind: token.STRING, Value: fmt.Sprintf("%q", shimPath)}}
 			gd := &ast.GenDecl{Tok: token.IMPORT, Specs: []ast.Spec{spec}}
@@ -236,6 +332,7 @@ func main() {
 	report["map_ranges_controlled"] = mapRanges
 	report["map_ranges_uncontrolled"] = uncontrolledRanges
 	report["go_statements"] = goStmts
+	report["atomic_points_inserted"] = atomicPoints
 	report["globals"] = globals
 	if typeErr != nil {
 		report["typecheck_note"] = typeErr.Error()
